@@ -326,15 +326,16 @@ def install():
         if not ok:
             ctl.event("end", path, False)
             raise BuildError("script of {} failed (injected)".format(path))
-        # the result of a script is a function of its name and of the results of its valid dependencies
+        # the result of a script is a function of its name and of the results of its inputs (valid arguments and
+        # tools; the sandbox is an execution environment, not an input)
         ins = []
-        for d in step.getAllDepSteps():
-            if d.isValid():
-                try:
-                    with open(os.path.join(d.getWorkspacePath(), "result.txt")) as f:
-                        ins.append(f.read())
-                except OSError:
-                    ins.append("missing")
+        tools = sorted(step.getTools().items(), key=lambda t: t[0])
+        for d in [a for a in step.getArguments() if a.isValid()] + [t.getStep() for n, t in tools]:
+            try:
+                with open(os.path.join(d.getWorkspacePath(), "result.txt")) as f:
+                    ins.append(f.read())
+            except OSError:
+                ins.append("missing")
         content = "%s(%s)" % (path, ",".join(ins))
         if scriptName == "package" or True:
             with open(os.path.join(path, "result.txt"), "w") as f:
